@@ -70,7 +70,13 @@ def handleFileSrc (hdr : List String) (body : List (List String)) : List String 
       let deliveredBlks := stored.take implIds.length
       let m4 := if (deliveredBlks.zip (deliveredBlks.drop 1)).all (fun (p : Blk × Blk) => p.2.parent == p.1.id) then []
                 else ["monitor C10 FAIL out-of-sequence-block-delivered"]
-      model ++ (m1 ++ m2 ++ m4 ++ m3).take 1
+      -- C13 on the file side: ending with stop-block-reached, the stop block itself was delivered when it is stored
+      let m5 := match fsend with
+        | some ["stop"] =>
+          if sp != 0 && (stored.any (fun b => b.num == sp && !implIds.contains b.id)) then ["monitor C13 FAIL stop-block-is-stored-but-was-not-delivered-by-the-file-source"]
+          else []     -- (the file source itself may hand over the first block above the stop block: the stream's stop handler drops it)
+        | _ => []
+      model ++ (m1 ++ m2 ++ m4 ++ m3).take 1 ++ m5
     | _, _, _ => ["model bad-case"]
   | _ => ["model bad-case"]
 
